@@ -96,7 +96,7 @@ package clause
 //@   in clause.(NamedExpr).Build
 //@   do namedFound = ite(arg1, 1, 0)
 //@ site unbound-name-written-back-only-when-absent
-//@   match invoke Writer.WriteByte
+//@   match invoke Builder.WriteByte
 //@   in clause.(NamedExpr).Build
 //@   min-sites 2
 //@   assert at-sign-only-for-an-absent-name: arg0 == 64 ==> namedFound == 0 [C01]
